@@ -122,6 +122,87 @@ def stmt_like_reads(model: RepoModel) -> Set[str]:
     return out
 
 
+def _r6_literal_and_operator_plumbing(model: RepoModel, rep):
+    """C02.R6: two places every frontend's operands/operators pass through."""
+    from ..cfg import cfg_of
+    rep.rule("C02.R6", "operands and operators reach the shared vocabulary: the common parse() never hands a literal handler's None back as an "
+                       "operand (it falls back to the token text), and an augmented-assignment operator is looked up in the frontend's operator "
+                       "map after its `=` has been stripped (the map holds the binary spellings)", 2)
+    cp = model.cls("lang/common_parser.py", "Parser")
+    pf = cp.methods.get("parse")
+    if pf is None:
+        raise AnalysisError("common_parser.Parser.parse vanished")
+    key = "lang/common_parser.py::Parser.parse::a literal never lowers to None"
+    # can any literal handler of a core frontend return None?
+    none_handlers = []
+    for lang, fmod in gir.frontend_modules(model, gir.SEVEN):
+        rel = fmod.rel
+        P = fmod.classes.get("Parser")
+        if P is None:
+            continue
+        lit = set()
+        for f in P.methods.values():
+            for n in walk_no_nested(f.node):
+                if isinstance(n, ast.Assign) and any(is_self_attr(t, "LITERAL_MAP") for t in n.targets) and isinstance(n.value, ast.Dict):
+                    lit |= {v.attr for v in n.value.values if is_self_attr(v)}
+        for hn in sorted(lit):
+            h = P.methods.get(hn)
+            if h is None:
+                continue
+            c = cfg_of(h.node)
+            bare = any(isinstance(n, ast.Return) and n.value is None for n in walk_no_nested(h.node))
+            # falls off the end: a predecessor of EXIT that is not a return statement
+            falls = any(c.kind.get(p_) != "stmt" or not isinstance(c.stmt.get(p_), (ast.Return, ast.Raise)) for p_ in c.g.predecessors(c.EXIT) if p_ != c.RAISE)
+            if bare or falls:
+                none_handlers.append(f"{lang}.{hn}")
+    rep.analysed["literal handlers that can return None"] = none_handlers
+    lit_ifs = [n for n in walk_no_nested(pf.node) if isinstance(n, ast.If) and any(isinstance(c, ast.Call) and is_self_attr(c.func, "is_literal") for c in ast.walk(n.test))]
+    if not lit_ifs:
+        raise AnalysisError("common parse(): literal branch not found")
+    li = lit_ifs[0]
+    res_vars = {n.targets[0].id for n in ast.walk(li) if isinstance(n, ast.Assign) and isinstance(n.targets[0], ast.Name) and isinstance(n.value, ast.Call)
+                and is_self_attr(n.value.func, "literal")}
+    fallback = any(isinstance(n, ast.If) and isinstance(n.test, ast.Compare) and isinstance(n.test.ops[0], ast.Is) and isinstance(n.test.left, ast.Name)
+                   and n.test.left.id in res_vars and isinstance(n.test.comparators[0], ast.Constant) and n.test.comparators[0].value is None
+                   and any(isinstance(b, ast.Return) and b.value is not None for b in n.body) for n in ast.walk(li)) or \
+        any(isinstance(n, ast.Return) and isinstance(n.value, ast.BoolOp) and isinstance(n.value.op, ast.Or) for n in ast.walk(li))
+    if fallback or not none_handlers:
+        rep.holds("C02.R6", key, "lang/common_parser.py", li.lineno,
+                  "`if result is None: return self.read_node_text(node)`" if fallback else "no literal handler of a core frontend can return None")
+    else:
+        rep.violation("C02.R6", key, "lang/common_parser.py", li.lineno,
+                      f"parse() returns the literal handler's result unchecked, but {none_handlers[:4]} (of {len(none_handlers)}) can return None "
+                      f"(e.g. for an empty string literal): the operand is dropped from argument lists / becomes None in the instruction, "
+                      f"where other frontends emit the token text")
+    # operator map after stripping `=`
+    n_sites = 0
+    for lang, fmod in gir.frontend_modules(model, gir.SEVEN):
+        rel = fmod.rel
+        P = fmod.classes.get("Parser")
+        if P is None:
+            continue
+        for f in P.methods.values():
+            gets = [c for c in walk_no_nested(f.node) if isinstance(c, ast.Call) and isinstance(c.func, ast.Attribute) and c.func.attr == "get"
+                    and is_self_attr(c.func.value, "CONSTANTS_MAP")]
+            strips = [c for c in walk_no_nested(f.node) if isinstance(c, ast.Call) and isinstance(c.func, ast.Attribute) and c.func.attr == "replace"
+                      and len(c.args) == 2 and const_str(c.args[0]) == "=" and const_str(c.args[1]) == ""]
+            if not gets or not strips:
+                continue
+            n_sites += 1
+            key = f"{rel}::Parser.{f.name}::operator map applied after `=` is stripped"
+            # wrong order: the strip is applied to (something computed from) the map lookup
+            get_vars = {n.targets[0].id for n in walk_no_nested(f.node) if isinstance(n, ast.Assign) and isinstance(n.targets[0], ast.Name) and n.value in gets}
+            wrong = [c for c in strips if c.func.value in gets or (isinstance(c.func.value, ast.Name) and c.func.value.id in get_vars
+                                                                   and not any(isinstance(a, ast.Name) and a.id == c.func.value.id for g_ in gets for a in g_.args))]
+            if wrong:
+                rep.violation("C02.R6", key, rel, wrong[0].lineno,
+                              f"{lang}: `{norm(wrong[0])[:90]}` strips the `=` after the operator-map lookup: the compound spelling (`.=`) is not in "
+                              f"the map, so the language-specific operator (`.`) reaches GIR instead of the shared one (`+`)")
+            else:
+                rep.holds("C02.R6", key, rel, strips[0].lineno, "strip first, then map")
+    rep.analysed["operator normalisation sites"] = n_sites
+
+
 def run(model: RepoModel, rep, tier: str):
     rep.not_decided = ("that equal vocabulary implies equal meaning (semantic equivalence of the lowering), ordering of statements inside "
                        "bodies, correctness of operand values")
@@ -290,6 +371,7 @@ def run(model: RepoModel, rep, tier: str):
     # ------------------------------------------------------------------ R5
     from .c01 import check_tmp_elimination
     check_tmp_elimination(model, rep, "C02.R5")
+    _r6_literal_and_operator_plumbing(model, rep)
 
 
 def _scope_builder_ops(model: RepoModel) -> Set[str]:
@@ -359,6 +441,14 @@ def _rename_op(op, new, func=None, nth=0):
 
 
 MUTANTS = [
+    ("literal-none-not-caught", "lang/common_parser.py",
+     lambda src: __import__("sa.mutate", fromlist=["x"]).text_replace(src, "            result = self.literal(node, statements, replacement)\n            if result is None:\n                return self.read_node_text(node)\n            return result",
+                                                                     "            return self.literal(node, statements, replacement)"),
+     "a literal never lowers to None"),
+    ("php-compound-operator-mapped-before-strip", "lang/php_parser.py",
+     lambda src: __import__("sa.mutate", fromlist=["x"]).text_replace(src, '        shadow_operator = operator.replace("=", "")\n        shadow_operator = self.CONSTANTS_MAP.get(shadow_operator, shadow_operator)',
+                                                                     '        shadow_operator = self.CONSTANTS_MAP.get(operator, operator).replace("=", "")'),
+     "operator map applied after `=` is stripped"),
     ("py-return-op-renamed", "lang/python_parser.py", _rename_op("return_stmt", "return", "return_statement"), "python::return"),
     ("py-if-then-renamed", "lang/python_parser.py", _rename_attr("if_stmt", "then_body", "body", "if_statement"), "python::if_stmt::emits body"),
     ("py-while-body-renamed", "lang/python_parser.py", _rename_attr("while_stmt", "body", "loop_body"), "python::while_stmt"),
